@@ -24,6 +24,11 @@ D = {
     'v0': 'from proj.b import VB\nfrom proj.c2 import VC2\n\nVE = VB\nVF = VC2\n',
 }
 
+WIDE = '\ndef wide(p0: int, p1: str, p2: float, p3: bool, p4: int, p5: str, p6: float, p7: bool, p8: int, p9: str, p10: int) -> float:\n\treturn p2\n'
+USE_WIDE = "\nVW = wide(1, 'a', 1.5, True, 2, 'b', 2.5, False, 3, 'c', 4)\n"
+A = {k: v + WIDE for k, v in A.items()}
+B = {k: v.replace('from proj.a import fa', 'from proj.a import fa, wide') + USE_WIDE for k, v in B.items()}
+
 GRAPHS = {
     'pair': {'proj/a.py': A, 'proj/b.py': B},
     'chain3': {'proj/a.py': A, 'proj/b.py': B, 'proj/c.py': C},
